@@ -137,6 +137,9 @@ func (d *Driver) Enabled(e *mc.Env, s *mc.State) []mc.Op {
 	// governance switches the ERC20 feature off / on: conversions attempted while it is off must fail as a whole
 	add("erc20-off", opData{kind: "switch", rel: "off"})
 	add("erc20-on", opData{kind: "switch", rel: "on"})
+	// the chain restarts from its own exported token genesis (the contract side lives on): conversions must go on
+	// exactly as before
+	add("restart-from-genesis", opData{kind: "restart"})
 	return ops
 }
 
@@ -183,6 +186,16 @@ func (d *Driver) Apply(e *mc.Env, s *mc.State, op mc.Op) []mc.Finding {
 	pre := d.ledger(e, s)
 	amt := od.amt
 	switch od.kind {
+	case "restart":
+		if err := mc.ReimportModule(e, s.Ctx, tokentypes.ModuleName); err != nil {
+			return []mc.Finding{mc.F("C10/harness/token-genesis-reimport-failed", "%v", err)}
+		}
+		s.MarkDirty()
+		s.Last = "ok"
+		if post := d.ledger(e, s); !same(pre, post) {
+			fs = append(fs, mc.F("C10/restart-moved-value", "%s: ledgers changed: before %s after %s", op.Name, pre, post))
+		}
+		return fs
 	case "lookalike":
 		s.Deliver(e, op.Name, &v1.MsgIssueToken{Symbol: unitA, Name: "lookalike", MinUnit: "x" + unitA, Scale: 18, InitialSupply: 1, MaxSupply: 10, Mintable: false, Owner: mc.Addr(od.who).String()})
 		return nil
